@@ -186,6 +186,15 @@ def task(arg):
                                 sim.default_logger = sim.default_logger
                             for iv, r in recs.items():
                                 sim.file_manager.attach_observer(f"rec{iv}", r)
+                        if arg.get("replace") and ci == 1:
+                            # every recording observer is replaced under its own name by a NEW object with
+                            # the same interval (it inherits a copy of the calls recorded so far): from here
+                            # on the new object is the attached one and must be called on schedule
+                            for iv, r in list(recs.items()):
+                                nr = type(r)(iv, sim)
+                                nr.calls = list(r.calls)
+                                sim.file_manager.attach_observer(f"rec{iv}", nr)
+                                recs[iv] = nr
                         if arg.get("restored") and ci == 1:
                             # the documented restart: a new object from the dictionary, calculator re-attached
                             calc = sim.atoms.calc
@@ -270,6 +279,7 @@ def run(tier, seed):
         # default observers without a logger / with other cadences (also negative: one-shot)
         args.append({"driver": drv, "seed": seeds[0], "lengths": [2], "late_logger": True})
         args.append({"driver": drv, "seed": seeds[0], "lengths": [2], "reattach": True})
+        args.append({"driver": drv, "seed": seeds[0], "lengths": [2], "replace": True})
         if drv != "ForceBias":  # the force-bias drivers offer no from_dict
             args.append({"driver": drv, "seed": seeds[0], "lengths": [2], "restored": True})
             if tier == "thorough":
